@@ -110,7 +110,10 @@ where
     type AlignAs = FlatVecAlignAs<T, L>;
 
     unsafe fn ptr_from_bytes(bytes: *mut [u8]) -> *mut Self {
-        let meta = floor_mul(slice_ptr_len(bytes) - Self::DATA_OFFSET, Self::ALIGN) / T::SIZE;
+        // Zero-sized items take no room: only the length type bounds how many of them there can be.
+        let meta = floor_mul(slice_ptr_len(bytes) - Self::DATA_OFFSET, Self::ALIGN)
+            .checked_div(T::SIZE)
+            .unwrap_or(usize::MAX);
         ptr::slice_from_raw_parts_mut(bytes as *mut u8, meta) as *mut Self
     }
     unsafe fn ptr_to_bytes(this: *mut Self) -> *mut [u8] {
@@ -211,8 +214,11 @@ where
                 pos: Self::DATA_OFFSET,
             });
         }
-        for (i, x) in unsafe { this.data().get_unchecked(..this.len()) }.iter().enumerate() {
-            unsafe { T::validate_ptr(x.as_ptr()) }.map_err(|e| e.offset(Self::DATA_OFFSET + i * T::SIZE))?;
+        // Zero-sized items have no bytes that could be invalid (and there may be up to `L::MAX` of them).
+        if T::SIZE != 0 {
+            for (i, x) in unsafe { this.data().get_unchecked(..this.len()) }.iter().enumerate() {
+                unsafe { T::validate_ptr(x.as_ptr()) }.map_err(|e| e.offset(Self::DATA_OFFSET + i * T::SIZE))?;
+            }
         }
         Ok(())
     }
